@@ -13,7 +13,7 @@ pub const PROP: &str = "C06";
 /// defined+used, defined+used only at depth 3, defined+unused, undefined+used,
 /// undefined+unused, built-in used, built-in unused, near-miss of a declaration name (defined,
 /// used), used via partial qualification
-const IMPORTS: [&str; 10] = [
+const IMPORTS: [&str; 11] = [
     "d.Used",
     "d.Deep",
     "d.Unused",
@@ -25,6 +25,8 @@ const IMPORTS: [&str; 10] = [
     "d.e.Part",
     // ends with ".d.XQ" and sorts before "d.XQ": the type written `d.XQ` still means the exact import
     "a.d.XQ",
+    // differs from the declaration `Used` / the import `d.Used` in letter case only (and is unused)
+    "u.used",
 ];
 /// Q, R: plain; a.b.Q: qualified (can never be used); Used: same simple name as import 0;
 /// Q2: never referenced
@@ -184,7 +186,7 @@ pub fn run(tier: Tier, seed: u64) -> i32 {
     let all = classes.iter().all(|c| stats.outcome_count(&format!("class:{c}")) > 0);
     finish(
         &stats,
-        "every import list (with repetition) up to the stated length over 10 imports (defined-used, used only at depth 3, defined-unused, undefined-used, undefined-unused, built-in used / unused, near-miss of a declaration name, used through partial qualification, an undefined import that has another import as dotted suffix) x every forward-declaration list up to the stated length over 5 names x 2 bodies (declarations used / unused; every fifth case with 24 more imports and a type 20 levels deep) x 2 project contexts; the multiset of validation diagnostics located in the header is compared with the statement's exactly-one-of table (incl. where related information points); distinct_nontrivial counts distinct (imports, declarations, body, context) tuples",
+        "every import list (with repetition) up to the stated length over 11 imports (defined-used, used only at depth 3, defined-unused, undefined-used, undefined-unused, built-in used / unused, near-miss of a declaration name, used through partial qualification, an undefined import that has another import as dotted suffix, an import differing from a declaration in letter case only) x every forward-declaration list up to the stated length over 5 names x 2 bodies (declarations used / unused; every fifth case with 24 more imports and a type 20 levels deep) x 2 project contexts; the multiset of validation diagnostics located in the header is compared with the statement's exactly-one-of table (incl. where related information points); distinct_nontrivial counts distinct (imports, declarations, body, context) tuples",
         &[
             "reference table transcribed from the statement (model/sema.rs)",
             "diagnostics are located by their range: anywhere inside the statement they concern; related information inside the first occurrence's statement",
